@@ -150,6 +150,18 @@ ASMJIT_FAVOR_SIZE Error EmitHelper::emit_reg_move(
         dst.set_signature(Reg::signature_of_t<RegType::kGp32>());
         src.set_signature(Reg::signature_of_t<RegType::kGp32>());
       }
+      else {
+        // Store - only the bytes that belong to the type must be written, regardless of the width of the register
+        // the value is held in (the slot next to an 8-bit or 16-bit slot belongs to something else).
+        if (TypeUtils::size_of(type_id) == 1u) {
+          src.set_signature(Reg::signature_of_t<RegType::kGp8Lo>());
+          dst.as<Mem>().set_size(1);
+        }
+        else {
+          src.set_signature(Reg::signature_of_t<RegType::kGp16>());
+          dst.as<Mem>().set_size(2);
+        }
+      }
       [[fallthrough]];
 
     case TypeId::kInt32:
